@@ -54,6 +54,8 @@ func (o Op) String() string {
 	switch o.Kind {
 	case "pair":
 		return fmt.Sprintf("pair(c%d)", o.Ctrl)
+	case "pair-fail-code", "pair-fail-m5":
+		return fmt.Sprintf("%s(c%d)", o.Kind, o.Ctrl)
 	case "unpair":
 		return fmt.Sprintf("unpair(c%d via c%d)", o.Ctrl, o.Via)
 	case "add":
@@ -272,6 +274,47 @@ func execRun(spec RunSpec) (res RunResult) {
 				break
 			}
 			res.M6 = append(res.M6, M6Obs{Op: i, AccID: s.AccessoryID, LTPK: hex.EncodeToString(s.AccessoryLTPK)})
+		case "pair-fail-code", "pair-fail-m5":
+			c, err := refctl.Dial(a.Addr)
+			if err != nil {
+				fail(i, err)
+				break
+			}
+			code := a.Code()
+			if op.Kind == "pair-fail-code" {
+				code = "000-00-001"
+				if code == a.Code() {
+					code = "000-00-002"
+				}
+			}
+			s, err := c.StartSetup(ids[op.Ctrl], code, nil)
+			if err != nil {
+				c.Close()
+				fail(i, err)
+				break
+			}
+			err = c.SetupVerify(s)
+			if op.Kind == "pair-fail-code" {
+				c.Close()
+				if se, ok := err.(*refctl.StageError); !ok || se.Stage != refctl.StageAuthRefused {
+					fail(i, fmt.Errorf("wrong setup code was not refused: %v", err))
+				}
+				break
+			}
+			if err != nil {
+				c.Close()
+				fail(i, err)
+				break
+			}
+			// key exchange whose announced key does not match the signing key: must be refused
+			other := refctl.NewIdentity("x", nil)
+			m, t, err := c.PostTLV("/pair-setup", refctl.SetupM5(s.EncKey, refctl.SetupM5Plain(s.Srp.K, ids[op.Ctrl].ID, other.LTPK, ids[op.Ctrl].LTSK)))
+			c.Close()
+			if err == nil && m.Status == 200 && t != nil {
+				if _, isErr := t.Get(refctl.TagError); !isErr {
+					fail(i, fmt.Errorf("a key exchange with a mismatching key was not refused"))
+				}
+			}
 		case "unpair", "add":
 			c := verified(i, op.Via)
 			if c == nil {
@@ -567,6 +610,13 @@ func genOps(rnd *rand.Rand, paired *[]int, nctrl int, accs []*accessory.Accessor
 			add()
 			unpair((*paired)[rnd.Intn(len(*paired))], rnd.Intn(2) == 0)
 		}
+	}
+	// failed pairing attempts at random positions (wrong code; right code but a key exchange that is refused):
+	// they change nothing, in particular not the discoverability
+	for k := rnd.Intn(3); k > 0; k-- {
+		kind := []string{"pair-fail-code", "pair-fail-m5"}[rnd.Intn(2)]
+		pos := rnd.Intn(len(ops) + 1)
+		ops = append(ops[:pos], append([]Op{{Kind: kind, Ctrl: rnd.Intn(nctrl), Via: -1}}, ops[pos:]...)...)
 	}
 	// value changes at random positions
 	nv := rnd.Intn(4)
